@@ -89,7 +89,9 @@ impl ManiaGradualDifficulty {
 
         let mut combos = Vec::with_capacity(map.hit_objects.len());
 
-        let mania_objects = map
+        // All objects are converted eagerly so that the combo after each of
+        // them is known even if `passed_objects` limits the difficulty objects.
+        let mania_objects: Vec<_> = map
             .hit_objects
             .iter()
             .map(|h| {
@@ -98,9 +100,12 @@ impl ManiaGradualDifficulty {
 
                 mania_object
             })
-            .take(take);
+            .collect();
 
-        let diff_objects = DifficultyValues::create_difficulty_objects(clock_rate, mania_objects);
+        let diff_objects = DifficultyValues::create_difficulty_objects(
+            clock_rate,
+            mania_objects.into_iter().take(take),
+        );
 
         let strain = Strain::new(total_columns as usize);
 
